@@ -15,6 +15,7 @@ def n_active(dim):
     return Ite(dim.is_("OneD"), Const(1, "Int"), Ite(dim.is_("TwoD"), Const(2, "Int"), Const(3, "Int")))
 
 
+@isolated('from_dual')
 def from_dual_obligations(prefix):
     """radius2 of a vertex = squared distance from the generator to the vertex *in the active subspace*."""
     u = Unit(CC, "Vertex::from_dual")
@@ -53,6 +54,7 @@ def from_dual_obligations(prefix):
     return obs, [u]
 
 
+@isolated('normalise')
 def normalisation_obligations(prefix):
     """What reaches SimulationBoundary::cuboid (and with it every cell) on both build routes: the unused components of anchor
     and width are (-0.5, 1) whatever was passed in, the used ones are untouched.  The function bodies are run from their first
